@@ -690,6 +690,19 @@ func (e *Env) call(x *ECall) (Val, error) {
 			return Val{}, err
 		}
 		return Val{T: sx("s-off", args[0].T), S: SInt, Ty: types.Typ[types.Int]}, nil
+	case "zerovalue":
+		if len(x.Args) != 1 {
+			return Val{}, fmt.Errorf("zerovalue(\"T\")")
+		}
+		ts, ok := x.Args[0].(*EStr)
+		if !ok {
+			return Val{}, fmt.Errorf("zerovalue needs a type string")
+		}
+		t, err := g.resolveType(ts.V)
+		if err != nil {
+			return Val{}, err
+		}
+		return g.zero(t), nil
 	case "isNaN":
 		if err := need(1); err != nil {
 			return Val{}, err
